@@ -291,7 +291,7 @@ impl<'ast> Visit<'ast> for Walker {
 
     fn visit_expr_method_call(&mut self, m: &'ast syn::ExprMethodCall) {
         // builder-style configuration calls: record their (single) argument
-        const BUILDER: [&str; 6] = ["length_field_length", "max_frame_length", "length_adjustment", "set_max_frame_length", "length_field_offset", "split_to"];
+        const BUILDER: [&str; 7] = ["length_field_length", "max_frame_length", "length_adjustment", "set_max_frame_length", "length_field_offset", "split_to", "wait_for_remote_end"];
         let name = m.method.to_string();
         if BUILDER.contains(&name.as_str()) && m.args.len() == 1 {
             let r = self.translate(&m.args[0]);
